@@ -352,11 +352,26 @@ func (s *Storm) genCall(r *rand.Rand, gateOnly bool) trace.Call {
 		tot := 2 + r.Intn(7)
 		c.N = 1 + r.Intn(tot-1)
 		c.M = tot - c.N
+		// a request the method rejects (nothing runs): it must still get a result map of its own
+		switch r.Intn(12) {
+		case 0:
+			c.N = 0
+		case 1:
+			c.M = len(stormNames) + 3
+		}
 	case trace.MSelNSortMConc, trace.MSelNConcMSort, trace.MSelNConcMConc:
 		tot := 2 + r.Intn(7)
 		c.N = 1 + r.Intn(tot-1)
 		c.M = tot - c.N
 		c.Names = names[:tot]
+		switch r.Intn(12) {
+		case 0:
+			c.Names = names[:tot-1] // number of names differs from N+M
+		case 1:
+			c.Names = append(append([]string{}, names[:tot-1]...), "nosuchrule")
+		case 2:
+			c.M = 0
+		}
 	case trace.MDAG:
 		nl := 1 + r.Intn(3)
 		if r.Intn(8) == 0 {
